@@ -650,7 +650,7 @@ impl<M: RawMutex + 'static, P: Payload> MpmcCore<M, P> {
                 0 => sends.node_info(r.slot as usize),
                 1 => recvs.node_info(r.slot as usize),
                 _ => snode.unwrap().1,
-            });
+            }, &|_, i| i.state == 1);
             // C11: closed flag vs model
             let closed = self.view.prim.flag;
             let m = self.closed;
@@ -663,7 +663,13 @@ impl<M: RawMutex + 'static, P: Payload> MpmcCore<M, P> {
             let parked = self.view.queues[1].len();
             let exp_b = self.buffered();
             let exp_p = self.order.len() - exp_b;
-            ctx.check("C09", "buffered-count-within-capacity-and-equal-to-model", crate::slots::inspect_on(), blen <= self.cap && blen == exp_b && parked == exp_p, || {
+            ctx.check("C09", "buffer-never-exceeds-capacity", true, blen <= self.cap, || format!("buffer holds {} values, capacity {}", blen, self.cap));
+            ctx.check("C09", "senders-park-only-while-the-buffer-is-full", parked > 0 && crate::slots::inspect_on(), blen == self.cap, || {
+                format!("{} senders are parked although the buffer holds only {} of {}", parked, blen, self.cap)
+            });
+            // agreement of the hooked state with the reference FIFO: a disagreement means the model can no
+            // longer be trusted for this history (model drift) - it is not by itself a violation of C09
+            ctx.check("MODEL", "hook-state-equals-reference-fifo", crate::slots::inspect_on(), blen == exp_b && parked == exp_p, || {
                 format!("buffer holds {} (capacity {}), {} senders parked; reference FIFO expects {} buffered, {} parked", blen, self.cap, parked, exp_b, exp_p)
             });
             // parked senders are queued in send-effect order (oldest at the tail)
